@@ -17,6 +17,7 @@ PROP_FILE = 'props/C15.v'
 TEX = ('Erste Zeile mit Fehlerr und Wört.\n'
        'Zweite $x$ Zeile \\textbf{noch} ein Worrt\\footnote{Fuß zeile}.\n'
        '\n'
+       'Die Stra\\ss e und \\LaTeX{} hier, \\dots{} gut.\n'
        'Dritter Absatz — Ende')
 LANG = 'de-DE'
 
@@ -64,6 +65,10 @@ SHAPES = [None, True, False, 0, -1, 1.5, 'str', [], {}, [1], {'a': 1}, [[]],
           10 ** 12]
 
 
+HTML_STRINGS = ['a<br>\nb', 'https://x/<br>\n<br>\n<br>\n<br>\n<br>\n<br>\ny', '"><b>x',
+                "'", '\n\n', '</span></a></td>', 'x\r\ny', '&lt;br&gt;\n']
+
+
 def gen_faults(tier):
     tex2, parts, base = template()
     plain = parts[0][1]
@@ -92,6 +97,21 @@ def gen_faults(tier):
             b = set_path(base, ('matches', 0, 'offset'), o)
             b = set_path(b, ('matches', 0, 'length'), l)
             out.append(('pair:%d,%d' % (o, l), json.dumps(b).encode()))
+    # text fields holding what the HTML report uses as its own separators
+    for path in (('matches', 0, 'message'), ('matches', 0, 'rule', 'urls', 0, 'value'),
+                 ('matches', 0, 'replacements', 0, 'value'), ('matches', 0, 'rule', 'id'),
+                 ('matches', 1, 'rule', 'urls', 0, 'value')):
+        for k, v in enumerate(HTML_STRINGS):
+            out.append(('text:%s=%d' % ('/'.join(map(str, path)), k),
+                        json.dumps(set_path(base, path, v)).encode()))
+    # matches that map to the backslash of a text-producing macro
+    cm = parts[0][2]
+    for i in range(n):
+        if tex2[cm[i] - 1] == '\\':
+            for l in (0, 1, 2):
+                b = set_path(base, ('matches', 0, 'offset'), i)
+                b = set_path(b, ('matches', 0, 'length'), l)
+                out.append(('pair:%d,%d' % (i, l), json.dumps(b).encode()))
     raw = json.dumps(base, ensure_ascii=False).encode('utf-8')
     step = 1 if tier == 'thorough' else 7
     cuts = set(range(0, len(raw), step))
@@ -168,15 +188,19 @@ def run(tier, seed, build, res):
                    modes))
     res.extra['exhaustive'] = tier == 'thorough'
     jobs = [(name, b, mode) for name, b in faults for mode in modes]
+    # the HTML report with --link (the rule URL becomes an attribute value)
+    jobs += [(name, b, 'html-link') for name, b in faults
+             if 'urls' in name or name.split(':')[0] in ('valid', 'text', 'pair')]
     c = {'tex': TEX, 'language': LANG, 'multi': False, 'mlc': 2}
 
     def one(job):
         name, b, mode = job
+        margs = ['--output', 'html', '--link'] if mode == 'html-link' else ['--output', mode]
         return shellrun.run_shell({'t.tex': TEX},
-                                  ['--language', LANG, '--output', mode, 't.tex'],
+                                  ['--language', LANG] + margs + ['t.tex'],
                                   answers=[b])
     results = shellrun.pmap(one, jobs)
-    lines = [shellcase.model_line(mode, False, tex2, parts, [b])
+    lines = [shellcase.model_line('html' if mode == 'html-link' else mode, False, tex2, parts, [b])
              for name, b, mode in jobs]
     outs = core.run_model(lines, shards=4)
     for (name, b, mode), r, o in zip(jobs, results, outs):
@@ -199,7 +223,8 @@ def run(tier, seed, build, res):
                 r.rc, r.err[-200:])
         elif oc == 'OK':
             try:
-                b2 = in_file_oracle(tex2, mode, r.out.decode('utf-8'))
+                b2 = in_file_oracle(tex2, 'html' if mode == 'html-link' else mode,
+                                    r.out.decode('utf-8'))
             except Exception as e:
                 b2 = ['report cannot be parsed: %r' % e]
             if b2:
@@ -207,7 +232,9 @@ def run(tier, seed, build, res):
         if bad:
             res.failures.append((key, case, bad))
         # correspondence: outcome class and, for reports, the locations
-        if mo[0] != oc and not (mo[0] == 'OK' and oc == 'OK'):
+        if mode == 'html-link':
+            pass        # the model has no --link; decided by the oracle above
+        elif mo[0] != oc and not (mo[0] == 'OK' and oc == 'OK'):
             res.disagreements.append(('faults', case, 'shell %s' % oc,
                                       'model %r' % (mo,)))
         elif oc == 'OK' and mode in ('plain', 'json', 'xml', 'xml-b'):
